@@ -8,7 +8,13 @@ import (
 // C15: list commands against a reference sequence.
 
 func init() {
-	register("C15", familyCheck{&familySpec{Prop: "C15", Kinds: []string{"list"}, Ref: refList, Deep: []Action{cmd("LRANGE", "l", "0", "-1"), cmd("RPUSH", "l", "z"), cmd("LPUSH", "l", "y"), cmd("RPOP", "l"), cmd("LPOP", "l", "2"), cmd("RPOP", "l", "2"), cmd("LMOVE", "l", "l2", "RIGHT", "LEFT"), cmd("LMOVE", "l2", "l", "LEFT", "RIGHT"), cmd("LSET", "l", "0", "s"), cmd("LREM", "l", "-1", "a"), cmd("LTRIM", "l", "1", "-1"), cmd("LINDEX", "l", "-1"), cmd("LLEN", "l2"), cmd("RPUSH", "l2", "w")},
+	register("C15", familyCheck{&familySpec{Prop: "C15", Kinds: []string{"list"}, Ref: refList,
+		// the most negative integer as a pop count (it has no magnitude)
+		ExtraCmd: func() []Action {
+			const m = "-9223372036854775808"
+			return []Action{cmd("LPOP", "l", m), cmd("RPOP", "l", m), cmd("LPOP", "l2", m), cmd("RPOP", "l2", m), cmd("LPOP", "x", m), cmd("RPOP", "s", m)}
+		},
+		Deep: []Action{cmd("LRANGE", "l", "0", "-1"), cmd("RPUSH", "l", "z"), cmd("LPUSH", "l", "y"), cmd("RPOP", "l"), cmd("LPOP", "l", "2"), cmd("RPOP", "l", "2"), cmd("LMOVE", "l", "l2", "RIGHT", "LEFT"), cmd("LMOVE", "l2", "l", "LEFT", "RIGHT"), cmd("LSET", "l", "0", "s"), cmd("LREM", "l", "-1", "a"), cmd("LTRIM", "l", "1", "-1"), cmd("LINDEX", "l", "-1"), cmd("LLEN", "l2"), cmd("RPUSH", "l2", "w")},
 		Title: "refList (a Go slice: push/pop at both ends, index normalisation with clamping, LSET, inclusive LTRIM, LREM by count and direction, LMOVE as pop+push)"}})
 }
 
@@ -109,6 +115,9 @@ func refList1(db map[string]AVal, a []string, now int64) *refExp {
 			c, ok := atoi(a[2])
 			if !ok {
 				return errExp("count is not an integer")
+			}
+			if c < 0 && -c < 0 {
+				return nil // the most negative integer has no magnitude: not judged beyond "no panic, an error changes nothing"
 			}
 			if c < 0 {
 				// undocumented: an error (Redis) or the magnitude (the handler's stated intent) are both accepted
